@@ -52,6 +52,19 @@ func sameStructure(text string, want []string) bool {
 	return strings.Join(got, " ") == strings.Join(want, " ")
 }
 
+// sameTopLevelTrees: two forests are the same multiset of top-level trees.
+func sameTopLevelTrees(a, b string) bool {
+	split := func(s string) []string {
+		var out []string
+		for _, t := range parseForest(s) {
+			out = append(out, t.sexpr())
+		}
+		sort.Strings(out)
+		return out
+	}
+	return strings.Join(split(a), " ") == strings.Join(split(b), " ")
+}
+
 // runC10Corpus permutes the top-level declarations of every fixture whose structure can be
 // recovered: all permutations for <= 5 (thorough 6) declarations, all transpositions beyond.
 func runC10Corpus(c *fw.Ctx) {
@@ -134,6 +147,13 @@ func c10PermuteDoc(c *fw.Ctx, d *cdoc, name string, maxAll int, deal bool) {
 			c.Describe(name + " perm " + fmt.Sprint(p))
 			if !sameStructure(text, want) {
 				c.Count("corpus_permutation_changes_nesting_not_judged", 1)
+				return
+			}
+			// the macro definitions are taken out before the directives are resolved a second time:
+			// a declaration that stood behind a definition may join the block before it. The
+			// permutation must leave the expanded forest the same set of top-level trees, too.
+			if a, b := implPaste(d.text), implPaste(text); a.crash == "" && b.crash == "" && a.rej == "" && b.rej == "" && !sameTopLevelTrees(a.tree, b.tree) {
+				c.Count("corpus_permutation_changes_nesting_after_expansion_not_judged", 1)
 				return
 			}
 			o := run1(text)
